@@ -17,10 +17,10 @@ SPEC = dict(
     property="C05",
     component="collector",
     props_module="Refinery.Props.C05",
-    quick=dict(cases=240, len=60, shards=4),
+    quick=dict(cases=400, len=60, shards=4),
     thorough=dict(cases=12800, len=160, shards=16),
     nontrivial=nontrivial,
-    rule="cases = the collector histories of C01/C02 (1-4 workers, ticks, ejections, late spans, reloads); about a third start "
+    rule="cases = the collector histories of C01/C02 (1-4 workers, ticks, ejections, late spans, reloads, resizes, stress-relief episodes); about a third start "
          "with DryRun on, 45 in 100 contain reloads of which 40 in 100 toggle DryRun; client sample rates 0,1,2,3,10; non-trivial = "
          "under dry run at least one span was forwarded with marker false (its trace would have been dropped) and one with "
          "marker true; distinct by transcript hash",
@@ -36,14 +36,14 @@ SPEC = dict(
              "marker is never set outside dry run.  Model tied to collect.go send / sendTraces / dealWithSentTrace / "
              "mergeTraceAndSpanSampleRates by driving a real InMemCollector and comparing rate and marker of every span that "
              "reaches the recording transmission, plus monitors.",
-        note="Trusted: Lean kernel; the differential check (sampled); each worker step atomic; the stress-relief exception of the "
-             "property (ProcessSpanImmediately) is outside the model.",
+        note="Trusted: Lean kernel; the differential check (sampled); each worker step atomic; the stress-relief exception is modelled and proved (spans in stressDropped).",
         technique="Lean 4 proof (invariants by induction over histories) + model/implementation correspondence check",
     ),
     assumptions=["each worker step (processSpan, sendExpiredTracesInCache, sendTracesEarly, reload branch) and each sendTraces "
                  "iteration runs to completion without interleaving inside it",
                  "which traces a tick/ejection takes is an input of the model (deadline arithmetic is C03/C07)",
-                 "stress relief is off (ProcessSpanImmediately is outside this model; C16)",
+                 "whether the node is stressed is an input (op `stress`); the stress level computation is C15; the router's "
+                 "stressed branch (processEvent) is replicated by the harness: Stressed() -> ProcessSpanImmediately, else AddSpan",
                  "a trace decided with DryRun on and drained after a reload turned it off is forwarded unmarked (the code does "
                  "this; see Props/C02 dropped_never)"],
 )
